@@ -29,6 +29,7 @@ type Layout struct {
 	Order     string `json:"order"`
 	Eol       string `json:"eol"`
 	Count     string `json:"count"`
+	Cut       string `json:"cut,omitempty"` // where content streams are cut: "ops" (between operations, default) or "tokens" (between an operand and its operator)
 }
 
 // TokenText is the Unicode text item <font, tok> must be reported as.
@@ -248,13 +249,24 @@ func contentLines(items []Item, size string, salt int) []string {
 	return lines
 }
 
-func splitLines(lines []string, k int) [][]byte {
+// splitLines cuts the content into k parts at line boundaries (between complete operations); with cut ==
+// "tokens" every cut is moved to the last token boundary inside the operation that follows it, so a part ends
+// with operands whose operator opens the next part (7.8.2: the division may fall at any token boundary).
+func splitLines(lines []string, k int, cut string) [][]byte {
 	if k > len(lines) {
 		k = len(lines)
 	}
 	parts := make([][]byte, k)
+	prev := -1
 	for i, l := range lines {
 		p := i * k / len(lines)
+		if cut == "tokens" && p != prev && p > 0 && !strings.HasPrefix(l, "%") {
+			if sp := strings.LastIndexByte(strings.TrimRight(l, "\n"), ' '); sp > 0 {
+				parts[p-1] = append(parts[p-1], []byte(l[:sp]+"\n")...)
+				l = l[sp+1:]
+			}
+		}
+		prev = p
 		parts[p] = append(parts[p], []byte(l)...)
 	}
 	return parts
@@ -330,7 +342,7 @@ func Build(L Layout, base [][]Item, rev2page1 []Item, rev3page []Item) ([]byte, 
 		return d
 	}
 	content := func(rev int, items []Item, salt int) (pdfw.Obj, []*node) {
-		parts := splitLines(contentLines(items, L.Size, salt), L.Split)
+		parts := splitLines(contentLines(items, L.Size, salt), L.Split, L.Cut)
 		var refs pdfw.Arr
 		var ns []*node
 		for _, p := range parts {
@@ -456,7 +468,7 @@ func Build(L Layout, base [][]Item, rev2page1 []Item, rev3page []Item) ([]byte, 
 		// replace page 1's content streams in place (same object numbers, new bodies);
 		// the number of parts stays the same so the page dictionary is untouched
 		old := leaves[0].content
-		parts := splitLines(contentLines(rev2page1, L.Size, 91), len(old))
+		parts := splitLines(contentLines(rev2page1, L.Size, 91), len(old), L.Cut)
 		for len(parts) < len(old) {
 			parts = append(parts, []byte("\n"))
 		}
